@@ -96,6 +96,17 @@ func (k *c04Case) corrupt() string {
 		}
 		p := digits[k.CorrArg%len(digits)]
 		return line[:p] + "x" + line[p+1:]
+	case "empty-field":
+		// a whole number of the header is missing, or the dot sits at either end of the time digits
+		name := auparse.AuditMessageType(k.Type).String()
+		secs, ms, seq := fmt.Sprint(k.Sec), fmt.Sprintf("%03d", k.Msec), fmt.Sprint(k.Seq)
+		hdr := []string{
+			"audit(" + secs + ".:" + seq + "):", "audit(." + ms + ":" + seq + "):", "audit(." + secs + ms + ":" + seq + "):", "audit(" + secs + ms + ".:" + seq + "):",
+			"audit(-." + ms + ":" + seq + "):", "audit(.:" + seq + "):", "audit(" + secs + "." + ms + ":):", "audit(:" + seq + "):",
+			// (numbers written with an explicit sign - "+1490137971.011", ".-520" - are accepted by the pinned parser
+			// and not asserted here: whether a signed number is malformed is not settled by the statement)
+		}[k.CorrArg%8]
+		return "type=" + name + " msg=" + hdr + " " + k.Body
 	case "seq-overflow":
 		big := uint64(1<<32) + uint64(k.CorrArg)
 		name := auparse.AuditMessageType(k.Type).String()
@@ -131,7 +142,7 @@ func (k *c04Case) corrupt() string {
 	return ""
 }
 
-var c04Corruptions = []string{"truncate", "drop-structural", "letter-for-digit", "seq-overflow", "bad-type-name", "no-msg-token", "left-truncate"}
+var c04Corruptions = []string{"truncate", "drop-structural", "letter-for-digit", "seq-overflow", "bad-type-name", "no-msg-token", "left-truncate", "empty-field"}
 
 func sameTimestampText(got string, want time.Time) bool {
 	if got == want.UTC().String() {
